@@ -111,6 +111,9 @@ fn main() {
             let n: usize = n.split_whitespace().next().and_then(|s| s.parse().ok()).unwrap_or(0);
             let rows: Vec<Vec<String>> = (0..n).rev().map(|i| vec![format!("r{}", i)]).collect();
             serde_json::json!({ "result": rows })
+        } else if sql.starts_with("blankrow") {
+            // two rows of one column; the second value is a single blank
+            serde_json::json!({ "result": [["v"], [" "]] })
         } else if sql.starts_with("fail") {
             serde_json::json!({ "err": "boom" })
         } else if sql.starts_with("refuse") {
